@@ -820,11 +820,21 @@ func (e *Engine) spill(st *State, cell int) *Term {
 	at := c.Typ.Underlying().(*types.Array)
 	arr := e.newRef(st)
 	els := c.V.Elems
+	v0 := c.V
 	c.Spill = arr
 	c.V = Val{}
 	st.Cells[cell] = c
 	if st.Disc != nil {
 		st.Disc.Cells[cell] = true
+	}
+	if els == nil && len(v0.T) == 1 && len(Leaves(at.Elem())) == 1 && Leaves(at.Elem())[0].Sort == SInt {
+		// the local holds an array value kept as a token: its elements are the token's elements
+		tb := e.tb
+		tok := v0.T[0]
+		cl := e.elemClass(at.Elem(), "", Leaves(at.Elem())[0])
+		row := tb.App("unpack_"+typeKey(c.Typ), SArrI, tok)
+		e.setH(st, cl, tb.Store(e.H(st, cl, SArr2I), arr, row))
+		e.assume(st, tb.Eq(tb.App("pack_"+typeKey(c.Typ), SInt, row, tb.Int(0), tb.Int(at.Len())), tok))
 	}
 	for i, el := range els {
 		if sl, ok := at.Elem().Underlying().(*types.Slice); ok {
